@@ -1646,3 +1646,92 @@ Lemma down_rules_after_hop_removal : forall e live rules res h k,
 Proof.
   intros e live rules res h k Hk. rewrite mutate_headers_lookup. rewrite (resp_is_hop_for_removed h k Hk). reflexivity.
 Qed.
+
+(* ---------- sequences of requests through one configuration: every request by itself ---------- *)
+Lemma serve_seq_with_nth : forall step xs hist i x,
+  nth_error xs i = Some x ->
+  nth_error (serve_seq_with step hist xs) i = Some (step (hist ++ firstn i xs) x).
+Proof.
+  intros step xs. induction xs as [|a r IH]; intros hist i x H.
+  - destruct i; discriminate H.
+  - destruct i as [|j]; cbn [serve_seq_with nth_error firstn] in *.
+    + injection H as <-. rewrite app_nil_r. reflexivity.
+    + rewrite (IH (hist ++ [a]) j x H). rewrite <- app_assoc. reflexivity.
+Qed.
+
+Lemma serve_seq_length : forall step xs hist, length (serve_seq_with step hist xs) = length xs.
+Proof. intros step xs. induction xs as [|a r IH]; intros hist; [reflexivity|]. cbn [serve_seq_with length]. rewrite IH. reflexivity. Qed.
+
+Lemma header_rules_depend_on_own_request : forall c retriable hist xs i x,
+  nth_error xs i = Some x ->
+  exists r, nth_error (serve_seq c retriable hist xs) i = Some r /\
+    r = serve_one c retriable x /\
+    (forall k, hlookup (o_hdr (xr_sent r)) k =
+               fold_left vop_apply (vops_for (subst_of (env_of (x_q x)) (q_hdr (x_q x))) (c_up c) k ++
+                                    revops_for (subst_of (env_of (x_q x)) (q_hdr (x_q x))) (c_upre c) k)
+                         (hlookup (auth_hdr (x_t x) (create_upstream_headers (q_remote (x_q x)) (q_hdr (x_q x)))) k)) /\
+    (forall k, keys_ok (b_hdr (x_b x)) -> k <> K_TRAILER \/ b_announced (x_b x) = [] ->
+               hlookup (v_hdr (xr_view r)) k =
+               copy_value gen_skip_headers (hlookup (x_pre x) k)
+                 (fold_left vop_apply (vops_for (subst_of (env_of (x_q x)) (q_hdr (x_q x))) (c_down c) k ++
+                                       revops_for (subst_of (env_of (x_q x)) (q_hdr (x_q x))) (c_downre c) k)
+                            (hlookup (resp_strip (b_hdr (x_b x))) k)) k).
+Proof.
+  intros c retriable hist xs i x H.
+  exists (serve_one c retriable x). split; [|split; [reflexivity|split]].
+  - unfold serve_seq. rewrite (serve_seq_with_nth _ xs hist i x H). reflexivity.
+  - intros k. unfold serve_one, serve_with. cbn [xr_sent].
+    destruct (first_attempt_spec c retriable (x_q x) (x_t x) []) as [o [os [E [_ [_ [_ Hh]]]]]].
+    rewrite E. cbn [nth]. apply Hh.
+  - intros k Hk Ht. unfold serve_one, serve_with. cbn [xr_view].
+    destruct response_copy_header_spec as [_ [_ Hc]]. apply Hc; assumption.
+Qed.
+
+(* the same, as independence: equal exchanges get equal results wherever they stand, in whatever sequences *)
+Lemma header_rules_history_independent : forall c retriable hist1 hist2 xs1 xs2 i j x,
+  nth_error xs1 i = Some x -> nth_error xs2 j = Some x ->
+  nth_error (serve_seq c retriable hist1 xs1) i = nth_error (serve_seq c retriable hist2 xs2) j.
+Proof.
+  intros c retriable hist1 hist2 xs1 xs2 i j x H1 H2. unfold serve_seq.
+  rewrite (serve_seq_with_nth _ xs1 hist1 i x H1), (serve_seq_with_nth _ xs2 hist2 j x H2). reflexivity.
+Qed.
+
+(* witness: two clients with different Origin / Host / method through
+   `header_downstream Access-Control-Allow-Origin {>Origin}`, `header_downstream X-Served {method} {host}` *)
+Definition wit_seq_c : pcfg :=
+  parse_cfg [DDown (bs "Access-Control-Allow-Origin"%string) (bs "{>Origin}"%string);
+             DDown (bs "X-Served"%string) (bs "{method} {host}"%string);
+             DUp (bs "X-Orig-Host"%string) (bs "{host}"%string)].
+Definition wit_seq_t : target := {| t_host := bs "h0.test"%string; t_path := []; t_rawpath := []; t_query := []; t_auth := None |}.
+Definition wit_seq_q (m host origin : string) : request :=
+  {| q_method := bs m; q_host := bs host; q_remote := bs "192.0.2.7:4711"%string;
+     q_url := {| u_path := bs "/x"%string; u_rawpath := []; u_query := [] |};
+     q_hdr := [(bs "Origin"%string, [bs origin])] |}.
+Definition wit_seq_b : bresp := {| b_status := 200; b_hdr := [(bs "Content-Type"%string, [bs "text/plain"%string])]; b_announced := []; b_trailers := [] |}.
+Definition wit_seq_x1 : exch := {| x_q := wit_seq_q "GET"%string "one.example"%string "https://app.one.example"%string; x_t := wit_seq_t; x_pre := []; x_b := wit_seq_b |}.
+Definition wit_seq_x2 : exch := {| x_q := wit_seq_q "POST"%string "two.example"%string "https://app.two.example"%string; x_t := wit_seq_t; x_pre := []; x_b := wit_seq_b |}.
+Definition acao (r : option xres) : option (list bytes) :=
+  match r with Some r => hlookup (v_hdr (xr_view r)) (bs "Access-Control-Allow-Origin"%string) | None => None end.
+Definition served (r : option xres) : option (list bytes) :=
+  match r with Some r => hlookup (v_hdr (xr_view r)) (bs "X-Served"%string) | None => None end.
+Lemma seq_own_request_witness :
+  acao (nth_error (serve_seq wit_seq_c false [] [wit_seq_x1; wit_seq_x2]) 1) = Some [bs "https://app.two.example"%string] /\
+  served (nth_error (serve_seq wit_seq_c false [] [wit_seq_x1; wit_seq_x2]) 1) = Some [bs "POST two.example"%string] /\
+  acao (nth_error (serve_seq wit_seq_c false [] [wit_seq_x1; wit_seq_x2]) 0) = Some [bs "https://app.one.example"%string] /\
+  keys_ok (b_hdr (x_b wit_seq_x2)).
+Proof.
+  split; [vm_compute; reflexivity|]. split; [vm_compute; reflexivity|]. split; [vm_compute; reflexivity|].
+  split; [repeat constructor; simpl; intuition discriminate|].
+  intros k [E|[]]. subst k. vm_compute. reflexivity.
+Qed.
+(* a response update function cached per host (closure over the first request's replacer) gives the
+   second client the first client's values: the sequence theorem does not hold for it *)
+Lemma cached_downstream_fn_differs :
+  acao (nth_error (serve_seq_cached wit_seq_c false [] [wit_seq_x1; wit_seq_x2]) 1) = Some [bs "https://app.one.example"%string] /\
+  served (nth_error (serve_seq_cached wit_seq_c false [] [wit_seq_x1; wit_seq_x2]) 1) = Some [bs "GET one.example"%string] /\
+  nth_error (serve_seq_cached wit_seq_c false [] [wit_seq_x1; wit_seq_x2]) 1 <> Some (serve_one wit_seq_c false wit_seq_x2) /\
+  nth_error (serve_seq_cached wit_seq_c false [] [wit_seq_x1; wit_seq_x2]) 0 = Some (serve_one wit_seq_c false wit_seq_x1).
+Proof.
+  split; [vm_compute; reflexivity|]. split; [vm_compute; reflexivity|]. split; [|vm_compute; reflexivity].
+  intros E. apply (f_equal acao) in E. vm_compute in E. discriminate E.
+Qed.
